@@ -64,10 +64,12 @@ def strategy(draw):
     nb = draw(st.integers(1, 8))
     bins = []
     pos = draw(st.sampled_from([0, 0, 100]))
-    chroms = ["chr1", "chr2", "chrX"]
+    # both naming styles; panels whose autosomes are not a contiguous 1..n (enumeration must go by rank, not by name)
+    chroms = draw(st.sampled_from([["chr1", "chr2", "chrX"], ["chr1", "chr2", "chrX"], ["1", "2", "X"], ["1", "2", "4", "X"],
+                                   ["2", "3", "X", "Y"], ["chr3", "chr7", "chrY"]]))
     ci = 0
     for _ in range(nb):
-        if draw(st.integers(0, 3)) == 0 and ci < 2:
+        if draw(st.integers(0, 3)) == 0 and ci < len(chroms) - 1:
             ci += 1
             pos = draw(st.sampled_from([0, 50]))
         ln = draw(st.integers(1, 500))
